@@ -543,6 +543,22 @@ class SymExec:
                                 refined.setdefault(al, set()).update(fl)
                             else:
                                 refined[al] = None
+                # `&mut whole_local` captured by a closure built inside the loop: the fields that closure's body may write
+                # through the capture
+                for b in blks:
+                    for s_ in body.blocks[b]["stmts"]:
+                        if s_["k"] == "assign" and s_["rv"]["k"] == "agg" and s_["rv"].get("ak") == "closure":
+                            cms_ = self.modset(s_["rv"]["closure"]) if s_["rv"].get("closure") in self.facts.bodies else None
+                            for k_, op_ in enumerate(s_["rv"]["ops"]):
+                                if op_["k"] not in ("move", "copy") or op_["pl"]["p"]:
+                                    continue
+                                al = op_["pl"]["l"]
+                                if al in ptrmap and not ptrmap[al]["p"] and body.locals[al]["ty"].startswith("&mut"):
+                                    fl = None if cms_ is None else cms_.get(("up", k_), set())
+                                    if fl is not None and None not in fl and refined.get(al, set()) is not None:
+                                        refined.setdefault(al, set()).update(fl)
+                                    else:
+                                        refined[al] = None
                 for b in blks:
                     blk = body.blocks[b]
                     for s in blk["stmts"]:
@@ -660,10 +676,19 @@ class SymExec:
                 for s in blk["stmts"]:
                     if s["k"] == "assign" and s["pl"]["l"] == ul and not s["pl"]["p"]:
                         srcs.append(s["rv"])
+            # which fields of the borrowed place the closure body may write through this capture (None = any)
+            cms_ = self.modset(rv["closure"])
+            flds_ = None if cms_ is None else cms_.get(("up", k), set())
+
+            def narrowed(pl_):
+                if flds_ is None:
+                    return [pl_]
+                return [{"l": pl_["l"], "p": list(pl_["p"]) + [{"f": 0, "n": fl_}]} for fl_ in sorted(x for x in flds_ if x is not None)] \
+                    if None not in flds_ else [pl_]
             if len(srcs) == 1 and srcs[0]["k"] in ("ref", "rawptr"):
-                out.append(srcs[0]["pl"])
+                out += narrowed(srcs[0]["pl"])
             elif len(srcs) == 1 and srcs[0]["k"] == "use" and srcs[0]["op"]["k"] in ("move", "copy"):
-                out.append({"l": srcs[0]["op"]["pl"]["l"], "p": list(srcs[0]["op"]["pl"]["p"]) + ["deref"]})
+                out += narrowed({"l": srcs[0]["op"]["pl"]["l"], "p": list(srcs[0]["op"]["pl"]["p"]) + ["deref"]})
             else:
                 out.append(None)
         # by-value upvars assigned (or mutably borrowed) inside the closure body
